@@ -350,4 +350,11 @@ theorem html_table_inside_filter :
     MJ.Gen.htmlEscapeTable.all (fun r => MJ.Gen.htmlEscapeFilterLo ≤ r.1.toNat ∧ r.1.toNat ≤ MJ.Gen.htmlEscapeFilterHi) = true := by
   decide +kernel
 
+/-- the only code of output.rs that is compiled without `verif_hooks` but not with it is the
+    dereference of the current target; every write of `Output` exists once, for both builds (the
+    harness additionally runs the sink-level streams against the unhooked build) -/
+theorem unhooked_bodies_pinned :
+    MJ.Gen.c19UnhookedBodies = [("target", "unsafe·{·&mut·*self.target·}")] := by
+  decide +kernel
+
 end MJ.C19
